@@ -400,6 +400,9 @@ impl TypedStmt {
                 vec![]
             }
             StmtEnum::VarAssign(identifier, accessors, value) => {
+                // as in Rust, the assigned value is evaluated before the place it is assigned to (a
+                // panic in the value comes before an out-of-bounds index):
+                let mut value = value.compile(prg, env, circuit);
                 let mut collection = env.get(identifier).unwrap();
                 let mut accessed = vec![];
                 enum Assign {
@@ -525,7 +528,6 @@ impl TypedStmt {
                         }
                     }
                 }
-                let mut value = value.compile(prg, env, circuit);
                 for assign in accessed.into_iter().rev() {
                     match assign {
                         Assign::Array(mut array, elem_bits, mut index) => {
